@@ -10,7 +10,7 @@ from .npfuncs import *  # noqa: F401,F403
 from .npfuncs import (abs, all, amax, amin, any, around, max, min, prod, round, round_, sum, iinfo, finfo,  # noqa: F401,A004
                       nan, inf, pi, e)
 from .scalars import (bool_, double, float16, float32, float64, float128, float_, floating, generic, inexact, int16,  # noqa: F401
-                      int32, int64, int_, integer, intp, longdouble, number, signedinteger)
+                      int32, int64, int_, integer, intp, longdouble, number, signedinteger, uint16, uint32, uint64, unsignedinteger)
 
 __version__ = "2.5.3"  # the numpy this model is validated against
 NaN = NAN = nan
